@@ -547,3 +547,4 @@ MANIFEST = {
     "ref": "DESIGN.md §4 C19",
 }
 MANIFEST["text"] += ' Bare uncertain numbers (ufloat, nominal 0 and non-0) against 6 operand kinds x 6 operators x both orders: refused against dimensional operands, propagated against dimensionless ones.'
+MANIFEST["text"] += " Exponent notation: 6 measurements x 4 exponent specs x 8 flavours (plain, D, C, P, H, L, ~P, ~H): mantissa, error and exponent are decoded from each flavour's markup and must denote the measurement to half a unit of the last printed digit."
